@@ -824,3 +824,258 @@ def to_bytes_width(ctx, rule, modules, floor=1):
     ct = ast.parse('a = self.f.value.to_bytes(8, "little")\nb = (self.f.value & 0xFFFFFFFFFFFFFFFF).to_bytes(8, "little")\n')
     cs = [ok for *_, ok in scan(ct, lambda a: 1 << 70)]
     R.check(cs == [False, True] and n >= floor, rule, f'{", ".join(modules)} | flag values written with a fixed width', f'{n} sites fit their field (positive control matched)', f'control {cs}, {n} sites')
+
+
+# ---------------------------------------------------------------------------------------------------------------------
+ONE_SHOT = {'filter', 'map', 'zip', 'reversed', 'enumerate'}
+
+
+def one_shot_iterators(ctx, rule, modules, floor=0):
+    """A generator expression or the result of filter() / map() / zip() can be walked once.  A name bound to one and then
+    read in more than one consuming position, or inside a loop or comprehension that evaluates it repeatedly (`x in it`
+    per iteration), silently sees an empty (or partly consumed) iterator the second time."""
+    R, p = ctx.r, ctx.p
+
+    def scan(tree):
+        out, n = [], 0
+        for fn in [x for x in ast.walk(tree) if isinstance(x, FUNC)]:
+            binds = {}
+            for st in walk_local(fn):
+                if isinstance(st, ast.Assign) and len(st.targets) == 1 and isinstance(st.targets[0], ast.Name):
+                    v = st.value
+                    if isinstance(v, ast.GeneratorExp) or (isinstance(v, ast.Call) and (dotted(v.func) or '') in ONE_SHOT):
+                        binds.setdefault(st.targets[0].id, []).append(st)
+            for name, sts in binds.items():
+                others = [s for s in walk_local(fn) if isinstance(s, (ast.Assign, ast.AugAssign)) and s not in sts and any(isinstance(t, ast.Name) and t.id == name for t in (s.targets if isinstance(s, ast.Assign) else [s.target]))]
+                if len(sts) != 1 or others:
+                    continue
+                n += 1
+                uses = [x for x in ast.walk(fn) if isinstance(x, ast.Name) and x.id == name and isinstance(x.ctx, ast.Load) and x.lineno >= sts[0].lineno]
+                repeated = []
+                for u in uses:
+                    a, prev = getattr(u, '_parent', None), u
+                    while a is not None and a is not fn:
+                        if isinstance(a, (ast.For, ast.AsyncFor, ast.While)) and prev is not getattr(a, 'iter', None) and a.lineno >= sts[0].lineno:
+                            repeated.append(u)
+                            break
+                        if isinstance(a, ast.comprehension) and prev is not a.iter:
+                            repeated.append(u)
+                            break
+                        if isinstance(a, (ast.ListComp, ast.SetComp, ast.GeneratorExp, ast.DictComp)) and prev in ([getattr(a, 'elt', None), getattr(a, 'key', None), getattr(a, 'value', None)]):
+                            repeated.append(u)
+                            break
+                        if isinstance(a, ast.comprehension):
+                            pass
+                        prev, a = a, getattr(a, '_parent', None)
+                if len(uses) > 1 or repeated:
+                    out.append((fn, sts[0], name, len(uses), bool(repeated)))
+        return out, n
+    tot = 0
+    for mn in modules:
+        m = p.modules.get(mn)
+        if m is None:
+            R.bad(rule, mn, 'anchor missing')
+            continue
+        bad, n = scan(m.tree)
+        tot += n
+        for fn, st, name, k, rep in bad:
+            R.bad(rule, f'{p.qual_of(fn)} | {name} = {norm(st.value)[:50]}', f'`{name}` is a one-shot iterator ({norm(st.value)[:40]}) read {"inside a loop" if rep else str(k) + " times"}: after the first walk it is empty, later readers see nothing', f'{m.rel}:{st.lineno}')
+    ct = ast.parse('def a(t):\n    used = filter(lambda c: c > 3, t)\n    for c in range(9):\n        if c not in used:\n            return c\ndef b(m, log):\n    e = ((k, v) for k, v in m.items())\n    if log:\n        print([k for k, _ in e])\n    return list(e)\ndef c(m):\n    e = (k for k in m)\n    return list(e)\n')
+    for x in ast.walk(ct):
+        for ch in ast.iter_child_nodes(x):
+            ch._parent = x
+    cb, cn = scan(ct)
+    R.check(sorted(f.name for f, *_ in cb) == ['a', 'b'] and cn == 3 and tot >= floor, rule, f'{", ".join(modules[:6])}{"..." if len(modules) > 6 else ""} | one-shot iterators', f'{tot} names bound to a generator / filter / map / zip, each walked once (positive controls matched)', f'control {[f.name for f, *_ in cb]}')
+
+
+def bytes_of_number(ctx, rule, modules, floor=0):
+    """`bytes(n)` with a number makes n zero bytes (`bytes(True)` is one zero byte): a flag or count meant to become one
+    byte has to be written `bytes([n])`."""
+    R, p = ctx.r, ctx.p
+    NUM = {'bool', 'int'}
+    ann = {}
+    for mn, m in p.modules.items():
+        if not mn.startswith('bumble.'):
+            continue
+        for n in ast.walk(m.tree):
+            if isinstance(n, ast.AnnAssign):
+                nm = n.target.attr if isinstance(n.target, ast.Attribute) else n.target.id if isinstance(n.target, ast.Name) else None
+                if nm:
+                    ann.setdefault(nm, set()).add(text(n.annotation).replace(' | None', ''))
+
+    def numeric(e, fn):
+        if isinstance(e, ast.Constant):
+            return isinstance(e.value, bool)
+        if isinstance(e, ast.Attribute):
+            a = ann.get(e.attr)
+            return bool(a) and a <= NUM and 'bool' in a
+        if isinstance(e, (ast.Compare, ast.BoolOp)) or (isinstance(e, ast.UnaryOp) and isinstance(e.op, ast.Not)):
+            return True
+        if isinstance(e, ast.Name) and fn is not None:
+            for a in fn.args.args + fn.args.kwonlyargs:
+                if a.arg == e.id and a.annotation is not None:
+                    return text(a.annotation) == 'bool'
+        return False
+
+    def scan(tree):
+        out, n = [], 0
+        for c in [x for x in ast.walk(tree) if isinstance(x, ast.Call) and dotted(x.func) == 'bytes' and len(x.args) == 1 and not x.keywords]:
+            n += 1
+            fn = c
+            while fn is not None and not isinstance(fn, FUNC):
+                fn = getattr(fn, '_parent', None)
+            if numeric(c.args[0], fn):
+                out.append((c, fn))
+        return out, n
+    tot = 0
+    for mn in modules:
+        m = p.modules.get(mn)
+        if m is None:
+            R.bad(rule, mn, 'anchor missing')
+            continue
+        bad, n = scan(m.tree)
+        tot += n
+        for c, fn in bad:
+            R.bad(rule, f'{p.qual_of(fn) if fn is not None else mn} | {norm(c)}', f'`{norm(c)}` is applied to a flag: it yields that many zero bytes (b"\\x00" for True, b"" for False), not the byte holding the flag', f'{m.rel}:{c.lineno}')
+    ann.setdefault('flag_enabled', set()).add('bool')
+    ct = ast.parse('def f(self):\n    return bytes(self.flag_enabled)\ndef g(self):\n    return bytes([1 if self.flag_enabled else 0])\n')
+    for x in ast.walk(ct):
+        for ch in ast.iter_child_nodes(x):
+            ch._parent = x
+    cb, cn = scan(ct)
+    R.check([f.name for _, f in cb] == ['f'] and tot >= floor, rule, f'{", ".join(modules[:6])}{"..." if len(modules) > 6 else ""} | bytes(x)', f'{tot} single-argument bytes() calls, none applied to a flag (positive control matched)', 'positive control not matched')
+
+
+def unordered_pairing(ctx, rule, modules, floor=0):
+    """`zip(xs, S)` / `enumerate(S)` / indexing pair positions with a set: a set has no order, so the i-th element of the
+    list is paired with an arbitrary element (it looks right for small consecutive integers, whose hash order is ascending)."""
+    R, p = ctx.r, ctx.p
+
+    def is_set(e, fn):
+        if isinstance(e, (ast.Set, ast.SetComp)):
+            return True
+        if isinstance(e, ast.Call) and dotted(e.func) in ('set', 'frozenset'):
+            return True
+        if isinstance(e, ast.Name) and fn is not None:
+            defs = [s.value for s in walk_local(fn) if isinstance(s, ast.Assign) and any(isinstance(t, ast.Name) and t.id == e.id for t in s.targets)]
+            return bool(defs) and all(is_set(d, None) for d in defs)
+        return False
+
+    def scan(tree):
+        out, n = [], 0
+        for c in [x for x in ast.walk(tree) if isinstance(x, ast.Call) and dotted(x.func) in ('zip', 'enumerate')]:
+            n += 1
+            fn = c
+            while fn is not None and not isinstance(fn, FUNC):
+                fn = getattr(fn, '_parent', None)
+            if any(is_set(a, fn) for a in c.args):
+                out.append((c, fn))
+        return out, n
+    tot = 0
+    for mn in modules:
+        m = p.modules.get(mn)
+        if m is None:
+            R.bad(rule, mn, 'anchor missing')
+            continue
+        bad, n = scan(m.tree)
+        tot += n
+        for c, fn in bad:
+            R.bad(rule, f'{p.qual_of(fn) if fn is not None else mn} | {norm(c)[:60]}', f'`{norm(c)[:70]}` pairs positions with a set: the order of a set is arbitrary, so items are matched with the wrong partner as soon as the values are not small consecutive integers', f'{m.rel}:{c.lineno}')
+    ct = ast.parse('def f(chs, rsp):\n    ok = {c for c in rsp if c}\n    for a, b in zip(chs, ok):\n        a.go(b)\ndef g(chs, rsp):\n    for a, b in zip(chs, rsp):\n        a.go(b)\n')
+    for x in ast.walk(ct):
+        for ch in ast.iter_child_nodes(x):
+            ch._parent = x
+    cb, cn = scan(ct)
+    R.check([f.name for _, f in cb] == ['f'] and tot >= floor, rule, f'{", ".join(modules[:6])}{"..." if len(modules) > 6 else ""} | zip / enumerate', f'{tot} positional pairings, none over a set (positive control matched)', 'positive control not matched')
+
+
+def fifo_discipline(ctx, rule, modules, floor=0):
+    """A deque used as a queue is filled at one end and emptied at the other: `append` with `pop()` (or `appendleft` with
+    `popleft()`) takes the newest entry first and reverses the order of what was queued."""
+    R, p = ctx.r, ctx.p
+
+    def scan(tree):
+        deques = set()
+        for n in ast.walk(tree):
+            tgt = val = None
+            if isinstance(n, ast.Assign) and len(n.targets) == 1:
+                tgt, val = n.targets[0], n.value
+            elif isinstance(n, ast.AnnAssign):
+                tgt, val = n.target, n.value
+                if 'deque' in text(n.annotation) and isinstance(tgt, (ast.Attribute, ast.Name)):
+                    deques.add(tgt.attr if isinstance(tgt, ast.Attribute) else tgt.id)
+            if isinstance(val, ast.Call) and (dotted(val.func) or '').split('.')[-1] == 'deque' and isinstance(tgt, (ast.Attribute, ast.Name)):
+                deques.add(tgt.attr if isinstance(tgt, ast.Attribute) else tgt.id)
+        ops = {}
+        for c in [x for x in ast.walk(tree) if isinstance(x, ast.Call) and isinstance(x.func, ast.Attribute)]:
+            recv = c.func.value
+            nm = recv.attr if isinstance(recv, ast.Attribute) else recv.id if isinstance(recv, ast.Name) else None
+            if nm in deques and c.func.attr in ('append', 'appendleft', 'pop', 'popleft', 'extend', 'extendleft') and not (c.func.attr == 'pop' and c.args):
+                ops.setdefault(nm, {}).setdefault(c.func.attr, []).append(c)
+        out = []
+        for nm, o in ops.items():
+            if ('append' in o or 'extend' in o) and 'pop' in o and 'appendleft' not in o:
+                out += [(nm, c) for c in o['pop']]
+            if 'appendleft' in o and 'popleft' in o and 'append' not in o and 'extend' not in o:
+                out += [(nm, c) for c in o['popleft']]
+        return out, len(deques)
+    tot = 0
+    for mn in modules:
+        m = p.modules.get(mn)
+        if m is None:
+            R.bad(rule, mn, 'anchor missing')
+            continue
+        bad, n = scan(m.tree)
+        tot += n
+        for nm, c in bad:
+            R.bad(rule, f'{p.qual_of(c)} | {nm}.{c.func.attr}()', f'the deque `{nm}` is filled and emptied at the same end ({c.func.attr}): entries come out newest first, the order of what was queued is reversed', f'{m.rel}:{c.lineno}')
+    ct = ast.parse('import collections\nclass A:\n    def __init__(self):\n        self.q = collections.deque()\n        self.r = collections.deque()\n    def put(self, x):\n        self.q.append(x)\n        self.r.append(x)\n    def get(self):\n        return self.q.pop(), self.r.popleft()\n')
+    cb, cn = scan(ct)
+    R.check([nm for nm, _ in cb] == ['q'] and tot >= floor, rule, f'{", ".join(modules[:6])}{"..." if len(modules) > 6 else ""} | deques', f'{tot} deques, each emptied at the end opposite to where it is filled (positive control matched)', 'positive control not matched')
+
+
+def enum_member_agreement(ctx, rule, classes, floor=0):
+    """A set / dict attribute that is filled with members of one enum and tested or emptied with members of another never
+    matches (HfFeature.X and AgFeature.X are different keys even when spelled alike)."""
+    R, p = ctx.r, ctx.p
+
+    def enums_in(e):
+        return {x.value.id for x in ast.walk(e) if isinstance(x, ast.Attribute) and isinstance(x.value, ast.Name) and x.attr.isupper() and x.value.id[:1].isupper()}
+
+    def scan(methods):
+        put, take = {}, {}
+        for fn in methods:
+            for n in walk_local(fn):
+                if isinstance(n, ast.Assign) and len(n.targets) == 1 and isinstance(n.targets[0], ast.Attribute) and dotted(n.targets[0].value) == 'self':
+                    put.setdefault(n.targets[0].attr, set()).update(enums_in(n.value))
+                if isinstance(n, ast.Call) and isinstance(n.func, ast.Attribute) and isinstance(n.func.value, ast.Attribute) and dotted(n.func.value.value) == 'self' and n.args:
+                    a = n.func.value.attr
+                    if n.func.attr in ('add', 'append', 'update', 'setdefault'):
+                        put.setdefault(a, set()).update(enums_in(n.args[0]))
+                    elif n.func.attr in ('discard', 'remove', 'pop', 'get', '__contains__'):
+                        for e in enums_in(n.args[0]):
+                            take.setdefault(a, []).append((e, n, fn))
+                if isinstance(n, ast.Compare) and len(n.ops) == 1 and isinstance(n.ops[0], (ast.In, ast.NotIn)) and isinstance(n.comparators[0], ast.Attribute) and dotted(n.comparators[0].value) == 'self':
+                    for e in enums_in(n.left):
+                        take.setdefault(n.comparators[0].attr, []).append((e, n, fn))
+        out = []
+        for a, uses in take.items():
+            if put.get(a):
+                out += [(a, e, n, fn) for e, n, fn in uses if e not in put[a]]
+        return out, sum(1 for a in take if put.get(a))
+    tot = 0
+    for cq in classes:
+        ci = p.cls(cq)
+        if ci is None:
+            R.bad(rule, cq, 'anchor missing')
+            continue
+        bad, n = scan(list(ci.methods.values()))
+        tot += n
+        for a, e, node, fn in bad:
+            R.bad(rule, f'{cq}.{fn.name} | self.{a} / {e}', f'`self.{a}` is filled with members of other enum types but is tested / emptied here with a member of `{e}`: the key never matches, the entry stays for ever', p.loc(node))
+    ct = ast.parse('class P:\n    def a(self):\n        self.todo = {f for f in (Hf.X, Hf.Y)}\n    def b(self):\n        self.todo.discard(Ag.X)\n    def c(self):\n        self.todo.discard(Hf.Y)\n')
+    for x in ast.walk(ct):
+        for ch in ast.iter_child_nodes(x):
+            ch._parent = x
+    cb, cn = scan([x for x in ast.walk(ct) if isinstance(x, FUNC)])
+    R.check([(a, e) for a, e, *_ in cb] == [('todo', 'Ag')] and tot >= floor, rule, f'{", ".join(classes)} | enum-keyed containers', f'{tot} containers tested with members of the enum they are filled with (positive control matched)', f'control {[(a, e) for a, e, *_ in cb]}')
